@@ -6,31 +6,31 @@ namespace Adf
 def TblLen (v size : Nat) (s : St) : Prop := (s.mem.vol v).bitmapTable.length = size
 
 theorem readBitmapBlock_safe (c : Cfg) (v n : Nat) (s : St) (Q : RC × Blk → St → Prop)
-    (h : ∀ r s', s'.mem = s.mem → Q r s') : Safe c (readBitmapBlock v n) s Q := by
+    (h : ∀ r s', s'.mem = s.mem → Q r s') : Post NoOob c (readBitmapBlock v n) s Q := by
   unfold readBitmapBlock
-  apply Safe.bind; apply Safe.volRead
+  apply Post.bind; apply Post.volRead
   intro r s' hm
   obtain ⟨rc, buf⟩ := r
   simp only
-  split <;> exact Safe.pure _ _ _ _ (h _ _ hm)
+  split <;> exact Post.pure _ _ _ _ (h _ _ hm)
 
 theorem readBitmapExtBlock_safe (c : Cfg) (v n : Nat) (s : St) (Q : RC × Blk → St → Prop)
-    (h : ∀ r s', s'.mem = s.mem → Q r s') : Safe c (readBitmapExtBlock v n) s Q := by
+    (h : ∀ r s', s'.mem = s.mem → Q r s') : Post NoOob c (readBitmapExtBlock v n) s Q := by
   unfold readBitmapExtBlock
-  apply Safe.bind; apply Safe.volRead
+  apply Post.bind; apply Post.volRead
   intro r s' hm
   obtain ⟨rc, buf⟩ := r
   simp only
-  split <;> exact Safe.pure _ _ _ _ (h _ _ hm)
+  split <;> exact Post.pure _ _ _ _ (h _ _ hm)
 
 theorem loadBitmapPage_safe (c : Cfg) (v j nSect size : Nat) (s : St) (hj : j < size) (hs : TblLen v size s) :
-    Safe c (loadBitmapPage v j nSect) s (fun rc s' => rc = rcOK → TblLen v size s') := by
+    Post NoOob c (loadBitmapPage v j nSect) s (fun rc s' => rc = rcOK → TblLen v size s') := by
   unfold loadBitmapPage
-  apply Safe.bind; apply Safe.getVolMem
+  apply Post.bind; apply Post.getVolMem
   have : ¬ (j ≥ (s.mem.vol v).bitmapTable.length) := by unfold TblLen at hs; omega
   simp only [if_neg this]
-  apply Safe.bind; apply Safe.setVolMem
-  apply Safe.bind
+  apply Post.bind; apply Post.setVolMem
+  apply Post.bind
   apply readBitmapBlock_safe
   intro r s' hm
   obtain ⟨rc, pg⟩ := r
@@ -38,10 +38,10 @@ theorem loadBitmapPage_safe (c : Cfg) (v j nSect size : Nat) (s : St) (hj : j < 
   by_cases hrc : rc ≠ rcOK
   · rw [if_pos hrc]
     unfold freeBitmap
-    apply Safe.bind; apply Safe.modVolMem; apply Safe.pure
+    apply Post.bind; apply Post.modVolMem; apply Post.pure
     intro h; exact absurd h hrc
   · rw [if_neg hrc]
-    apply Safe.bind; apply Safe.modVolMem; apply Safe.pure
+    apply Post.bind; apply Post.modVolMem; apply Post.pure
     intro _
     unfold TblLen at hs ⊢
     simp only [Mem.vol_setVol, List.length_set, hm]
@@ -49,55 +49,55 @@ theorem loadBitmapPage_safe (c : Cfg) (v j nSect size : Nat) (s : St) (hj : j < 
 
 theorem readBitmapRootPages_safe (c : Cfg) (v size : Nat) (root : Blk) :
     ∀ (fuel i : Nat) (s : St), TblLen v size s →
-      Safe c (readBitmapRootPages v size root fuel i) s (fun r s' => r.1 = rcOK → TblLen v size s') := by
+      Post NoOob c (readBitmapRootPages v size root fuel i) s (fun r s' => r.1 = rcOK → TblLen v size s') := by
   intro fuel
   induction fuel with
-  | zero => intro i s hs; unfold readBitmapRootPages; exact Safe.pure _ _ _ _ (fun _ => hs)
+  | zero => intro i s hs; unfold readBitmapRootPages; exact Post.pure _ _ _ _ (fun _ => hs)
   | succ fuel ih =>
     intro i s hs
     unfold readBitmapRootPages
     by_cases hc : i < BM_SIZE ∧ root.w (F_bmPages + i) ≠ 0 ∧ i < size
     · rw [if_pos hc]
-      apply Safe.bind
-      apply Safe.mono _ _ _ _ _ (loadBitmapPage_safe c v i _ size s hc.2.2 hs)
+      apply Post.bind
+      apply Post.mono _ _ _ _ _ (loadBitmapPage_safe c v i _ size s hc.2.2 hs)
       intro rc s' h
       by_cases hrc : rc ≠ rcOK
-      · rw [if_pos hrc]; apply Safe.pure; intro h'; exact absurd h' hrc
+      · rw [if_pos hrc]; apply Post.pure; intro h'; exact absurd h' hrc
       · rw [if_neg hrc]; exact ih _ _ (h (by simpa using hrc))
-    · rw [if_neg hc]; exact Safe.pure _ _ _ _ (fun _ => hs)
+    · rw [if_neg hc]; exact Post.pure _ _ _ _ (fun _ => hs)
 
 theorem readBitmapExtPages_safe (c : Cfg) (v size : Nat) (ext : Blk) :
     ∀ (fuel i j : Nat) (s : St), TblLen v size s →
-      Safe c (readBitmapExtPages v size ext fuel i j) s (fun r s' => r.1 = rcOK → TblLen v size s') := by
+      Post NoOob c (readBitmapExtPages v size ext fuel i j) s (fun r s' => r.1 = rcOK → TblLen v size s') := by
   intro fuel
   induction fuel with
-  | zero => intro i j s hs; unfold readBitmapExtPages; exact Safe.pure _ _ _ _ (fun _ => hs)
+  | zero => intro i j s hs; unfold readBitmapExtPages; exact Post.pure _ _ _ _ (fun _ => hs)
   | succ fuel ih =>
     intro i j s hs
     unfold readBitmapExtPages
     by_cases hc : i < 127 ∧ j < size
     · rw [if_pos hc]
-      apply Safe.bind
-      apply Safe.mono _ _ _ _ _ (loadBitmapPage_safe c v j _ size s hc.2 hs)
+      apply Post.bind
+      apply Post.mono _ _ _ _ _ (loadBitmapPage_safe c v j _ size s hc.2 hs)
       intro rc s' h
       by_cases hrc : rc ≠ rcOK
-      · rw [if_pos hrc]; apply Safe.pure; intro h'; exact absurd h' hrc
+      · rw [if_pos hrc]; apply Post.pure; intro h'; exact absurd h' hrc
       · rw [if_neg hrc]; exact ih _ _ _ (h (by simpa using hrc))
-    · rw [if_neg hc]; exact Safe.pure _ _ _ _ (fun _ => hs)
+    · rw [if_neg hc]; exact Post.pure _ _ _ _ (fun _ => hs)
 
 theorem readBitmapExtChain_safe (c : Cfg) (v size : Nat) :
     ∀ (fuel nSect j : Nat) (s : St), TblLen v size s →
-      Safe c (readBitmapExtChain v size fuel nSect j) s (fun _ _ => True) := by
+      Post NoOob c (readBitmapExtChain v size fuel nSect j) s (fun _ _ => True) := by
   intro fuel
   induction fuel with
-  | zero => intro n j s hs; unfold readBitmapExtChain; exact Safe.pure _ _ _ _ trivial
+  | zero => intro n j s hs; unfold readBitmapExtChain; exact Post.pure _ _ _ _ trivial
   | succ fuel ih =>
     intro n j s hs
     unfold readBitmapExtChain
     by_cases hc : n = 0 ∨ j ≥ size
-    · simp only [if_pos hc]; exact Safe.pure _ _ _ _ trivial
+    · simp only [if_pos hc]; exact Post.pure _ _ _ _ trivial
     · simp only [if_neg hc]
-      apply Safe.bind
+      apply Post.bind
       apply readBitmapExtBlock_safe
       intro r s' hm
       obtain ⟨rc, ext⟩ := r
@@ -105,37 +105,37 @@ theorem readBitmapExtChain_safe (c : Cfg) (v size : Nat) :
       by_cases hrc : rc ≠ rcOK
       · rw [if_pos hrc]
         unfold freeBitmap
-        apply Safe.bind; apply Safe.modVolMem; exact Safe.pure _ _ _ _ trivial
+        apply Post.bind; apply Post.modVolMem; exact Post.pure _ _ _ _ trivial
       · rw [if_neg hrc]
-        apply Safe.bind
+        apply Post.bind
         have hs' : TblLen v size s' := by unfold TblLen at hs ⊢; rw [hm]; exact hs
-        apply Safe.mono _ _ _ _ _ (readBitmapExtPages_safe c v size ext 128 0 j s' hs')
+        apply Post.mono _ _ _ _ _ (readBitmapExtPages_safe c v size ext 128 0 j s' hs')
         intro r s'' h
         obtain ⟨rc2, j2⟩ := r
         simp only
         by_cases hrc2 : rc2 ≠ rcOK
-        · rw [if_pos hrc2]; exact Safe.pure _ _ _ _ trivial
+        · rw [if_pos hrc2]; exact Post.pure _ _ _ _ trivial
         · rw [if_neg hrc2]; exact ih _ _ _ (h (by simpa using hrc2))
 
 /-- **the bitmap loader never indexes past the table it allocated**, for any root block, any volume size,
     any device content (page pointers, extension chains, cycles) and any I/O fault schedule: the run of
     `adfReadBitmap` never ends in the model's `oob` fault. -/
 theorem readBitmap_never_oob (c : Cfg) (v nBlock : Nat) (root : Blk) (s : St) :
-    Safe c (readBitmap v nBlock root) s (fun _ _ => True) := by
+    Post NoOob c (readBitmap v nBlock root) s (fun _ _ => True) := by
   unfold readBitmap
   simp only
-  apply Safe.bind
+  apply Post.bind
   unfold bitmapAllocate
-  apply Safe.modVolMem
-  apply Safe.bind
-  refine Safe.mono _ _ _ _ _ (readBitmapRootPages_safe c v _ root 26 0 _ ?_) ?_
+  apply Post.modVolMem
+  apply Post.bind
+  refine Post.mono _ _ _ _ _ (readBitmapRootPages_safe c v _ root 26 0 _ ?_) ?_
   · unfold TblLen; simp
   intro r s' h
   obtain ⟨rc, j⟩ := r
   simp only
   by_cases hrc : rc ≠ rcOK
-  · rw [if_pos hrc]; exact Safe.pure _ _ _ _ trivial
+  · rw [if_pos hrc]; exact Post.pure _ _ _ _ trivial
   · rw [if_neg hrc]
-    apply Safe.bind; apply Safe.getVolCfg
+    apply Post.bind; apply Post.getVolCfg
     exact readBitmapExtChain_safe c v _ _ _ _ s' (h (by simpa using hrc))
 end Adf
